@@ -94,3 +94,8 @@ Definition run_hdr (p : profile) (bs : list byte) : list string :=
   | Val r => (lines ++ hlines_walk p m r ++ flat_map (fun k => hlines_get p k m r) hgetter_kinds)%list
   | _ => lines
   end.
+
+(* verify <16 header bytes>: Multiboot2BasicHeader::verify_checksum on a bare basic header *)
+Definition run_verify (bs : list byte) : list string :=
+  let m := {| m_base := 0; m_bytes := bs |} in
+  [ line "verify_checksum" (sRes sBool (verify_checksum m {| d_off := 0; d_plen := 0 |})) ].
